@@ -17,7 +17,10 @@ META = {
 
 
 def soft_and_radio(facts, name):
-    fns = [f for f in facts.fns(WL + name) if f.kind == 'pattern']
+    fns = []
+    for f in facts.fns(WL + name):
+        if f.kind == 'pattern' and (f.file, f.line) not in {(g.file, g.line) for g in fns}:
+            fns.append(f)   # one record per source definition (several units may carry the same pattern)
     soft = [f for f in fns if not f.body.calls() or not any((c.cn or '').startswith('radio_') for c in f.body.calls())]
     radio = [f for f in fns if any((c.cn or '').startswith('radio_') for c in f.body.calls())]
     return soft, radio
@@ -191,7 +194,11 @@ def run(chk, facts, tier):
 
     # --- radio-backed variant: pure forwarding
     n = 0
+    seen_defs = set()
     for fn in [f for f in facts.functions if f.q.startswith(WL) and f.kind == 'pattern']:
+        if (fn.file, fn.line) in seen_defs:
+            continue
+        seen_defs.add((fn.file, fn.line))
         rc = [c for c in fn.body.calls() if (c.cn or '').startswith('radio_')]
         if not rc:
             continue
